@@ -26,18 +26,18 @@ var HashByOID = map[string]crypto.Hash{
 }
 
 const (
-	OIDRSA        = "1.2.840.113549.1.1.1"
-	OIDSHA1RSA    = "1.2.840.113549.1.1.5"
-	OIDSHA256RSA  = "1.2.840.113549.1.1.11"
-	OIDSHA384RSA  = "1.2.840.113549.1.1.12"
-	OIDSHA512RSA  = "1.2.840.113549.1.1.13"
-	OIDRSAPSS     = "1.2.840.113549.1.1.10"
-	OIDECPubKey   = "1.2.840.10045.2.1"
-	OIDECDSASHA1  = "1.2.840.10045.4.1"
-	OIDECDSA256   = "1.2.840.10045.4.3.2"
-	OIDECDSA384   = "1.2.840.10045.4.3.3"
-	OIDECDSA512   = "1.2.840.10045.4.3.4"
-	OIDMGF1       = "1.2.840.113549.1.1.8"
+	OIDRSA       = "1.2.840.113549.1.1.1"
+	OIDSHA1RSA   = "1.2.840.113549.1.1.5"
+	OIDSHA256RSA = "1.2.840.113549.1.1.11"
+	OIDSHA384RSA = "1.2.840.113549.1.1.12"
+	OIDSHA512RSA = "1.2.840.113549.1.1.13"
+	OIDRSAPSS    = "1.2.840.113549.1.1.10"
+	OIDECPubKey  = "1.2.840.10045.2.1"
+	OIDECDSASHA1 = "1.2.840.10045.4.1"
+	OIDECDSA256  = "1.2.840.10045.4.3.2"
+	OIDECDSA384  = "1.2.840.10045.4.3.3"
+	OIDECDSA512  = "1.2.840.10045.4.3.4"
+	OIDMGF1      = "1.2.840.113549.1.1.8"
 )
 
 func Digest(h crypto.Hash, parts ...[]byte) []byte {
